@@ -11,7 +11,7 @@ CORRESPONDENCE = ("c05e_expected: Arith.arith_run (the ENGINE MODEL's parsley.Ev
                   "combinators built from the same grammar term; ArithSpec.arith_ref (lexer + iterative reference evaluator) = "
                   "the driver's own scannerless Go reference evaluator; above 64 bytes the reference's prediction (value / "
                   "exact division-by-zero text / parse-error prefix) = parsley.Evaluate")
-RULE = ("every byte string up to length 4 over {1 0 - + * / ( ) space} (thorough: also length 5 without +); random well-formed "
+RULE = ("the grammar-text case; every byte string up to length 4 over {1 0 - + * / ( ) space} (thorough: also length 5 without +); random well-formed "
         "expressions (depth <= 8, chains of - and /, mixed precedence, redundant parentheses, signed / hex / octal / "
         "int64-edge literals, overflowing sums and products, zero divisors at random depths, white space styles none / "
         "spaces / tabs / LF / FF / CRLF / leading / trailing, 1 to ~300 bytes); long left-nested chains; ill-formed "
@@ -21,12 +21,19 @@ RULE = ("every byte string up to length 4 over {1 0 - + * / ( ) space} (thorough
 TRUSTED = ["Coq 8.16.1 kernel and vm_compute",
            "the specification coq/ArithSpec.v (lexer, reference evaluator; ArithSpecProofs.v proves it equal to the "
            "structural semantics of the left-recursive token grammar)",
-           "the workload grammar and its binop interpreter are written once, in harness/c05.go",
+           "the hand-written engine model (Grammar.v, Engine.v, Top.v, Literals.v) and Arith.arith_eval (the binop "
+           "interpreter on engine nodes), tied to the code by this differential run (and by the ENG/C01-C04/C08 runs)",
+           "the grammar is one Coq term (Arith.arith_rules/arith_root); the driver builds the real combinators from its "
+           "text and the corpus case C05Grammar makes both sides compare that text with their own definition; the binop "
+           "interpreter is written twice (harness/c05.go c05Binop, Arith.apply_op)",
            "Literals.int_lexeme / parse_int_base0 (C08) for the literal syntax and value",
-           "Go driver harness/c05.go", "lib/core.py orchestration"]
+           "Go driver harness/c05.go (incl. its recursion/work budget probe)", "lib/core.py orchestration"]
 ASSUMPTIONS = ["the file is placed at base offset 1, 2 or 50 behind a filler file (harness/eng.go layout)",
                "Go int arithmetic on positions does not overflow (unbounded N in the model)",
-               "int64 arithmetic = Z arithmetic wrapped to 64 bits, / = truncated quotient"]
+               "int64 arithmetic = Z arithmetic wrapped to 64 bits, / = truncated quotient",
+               "bytes are < 256 (bytes_ok) in the theorems about the engine model",
+               "the engine model is evaluated for inputs of at most 64 bytes (Arith.MODEL_CAP); longer inputs are "
+               "compared with the reference only"]
 EXHAUSTIVE = {"quick": False, "thorough": False}
 OFFSETS = [1, 2, 50]
 
@@ -279,6 +286,8 @@ def generate(rng, tier):
 
 
 def nontrivial(case_text, obs, meta):
+    if case_text.startswith("C05Grammar"):
+        return False
     body = case_text[case_text.index("[") + 1:case_text.index("]")]
     bs = set(body.split("; ")) if body else set()
     return bool(bs & {"40", "41", "42", "43", "45", "47"})
@@ -288,6 +297,8 @@ def distribution(cases, obs):
     d = {"value": 0, "div0": 0, "rejected": 0, "other": 0, "len<=4": 0, "len<=32": 0, "len<=100": 0, "len>100": 0,
          "max_len": 0}
     for (c, m), o in zip(cases, obs):
+        if c.startswith("C05Grammar"):
+            continue
         second = o.rsplit("(OT ", 1)[-1]
         if second.startswith('"Val"'):
             d["value"] += 1
@@ -307,22 +318,29 @@ def distribution(cases, obs):
 
 
 MANIFEST = {
-    "technique": ("Rocq specification (lexer + iterative reference evaluator) proved equal to the structural semantics of the "
-                  "left-recursive token grammar; differential run of parsley.Evaluate on the real combinators against the "
-                  "specification (vm_compute) and against a second reference evaluator in Go"),
+    "technique": ("Rocq proof that the engine model's Evaluate on the grammar returns the reference evaluator's answer "
+                  "(soundness, rejection, totality; acceptance for the white-space-free sub-language and bounded with "
+                  "white space) + differential run of parsley.Evaluate on the real combinators against the engine model, "
+                  "the specification (vm_compute) and a second reference evaluator in Go"),
     "text": ("coq/ArithSpec.v defines the token syntax the workload grammar accepts (context-dependent sign handling "
-             "documented there) and the reference evaluator arith_ref with int64 wrap-around, truncated division and the "
-             "position of the offending '/' on division by zero. ArithSpecProofs.v proves that arith_ref accepts exactly the "
-             "token lists of the left-recursive grammar E -> E (+|-) T | T, T -> T (*|/) F | F, F -> INT | ( E ) and returns "
-             "the value of the left-nested tree (ref_complete, ref_sound, hence unambiguity), the precedence/associativity "
-             "equations and the round trip through a fully parenthesised printer. Every run compares parsley.Evaluate on the "
-             "grammar built from the real combinators with the specification: same value, exactly 'division by zero at "
-             "f:<line>:<col>' (line/column by FileSet.spec_position), and an error 'failed to parse the input: ...' for "
-             "every ill-formed input, over enumerated short strings, generated expressions and their mutations at three "
-             "base offsets."),
-    "note": ("Phase 1: the engine model does not yet contain literal terminals, so the theorem tying the engine model's "
-             "Evaluate to arith_ref (arith_tree_value, C05_eval_sound, C05_accepts, C05_rejects) is not yet stated; the tie "
-             "between implementation and specification is the differential run. Trusted: Coq kernel + vm_compute; the "
-             "specification; the grammar and interpreter written in harness/c05.go; Literals.int_lexeme/parse_int_base0."),
+             "documented there) and the reference evaluator arith_ref (int64 wrap-around, truncated division, position of "
+             "the offending '/'); ArithSpecProofs.v proves it equal to the structural semantics of the left-recursive token "
+             "grammar (ref_complete, ref_sound, precedence/associativity equations, round trip). coq/Arith.v gives the "
+             "grammar as a pexpr over the engine model and the binop interpreter on engine nodes; ArithProofs.v proves, for "
+             "every input: every derivation tree of expr spells tokens the reference accepts and evaluates to the "
+             "reference's value, and the reference's lexer reads exactly those tokens (C05_arith_tree_value, _lex); the "
+             "model of Evaluate returns the reference's value / division by zero at the reference's position, and a parse "
+             "error whenever the reference rejects (C05_eval_sound, C05_rejects); with C02's fuel it neither runs out of "
+             "fuel nor panics (C05_total); every well-formed expression without white space is accepted with its value "
+             "(C05_accepts_nows_partial, via C01/C04 completeness and C05_strip_sim), and for all byte strings up to 4/5 "
+             "bytes incl. white space model and reference agree completely (kernel computation). Every run compares "
+             "parsley.Evaluate on the combinators built from the same grammar term with the engine model (value and complete "
+             "error text, inputs <= 64 bytes) and with the specification (value, exact 'division by zero at f:<line>:<col>' "
+             "by FileSet.spec_position, 'failed to parse the input: ...' for ill-formed input) over enumerated short "
+             "strings, generated expressions and their mutations at three base offsets."),
+    "note": ("Partial: acceptance of well-formed expressions WITH white space is not proved for all inputs (no completeness "
+             "theorem for trimming combinators); covered by the bounded theorems and the differential run. Trusted: Coq "
+             "kernel + vm_compute; the specification; the engine model and the interpreter model (validated by the "
+             "differential runs); Literals.int_lexeme/parse_int_base0; the Go driver."),
     "ref": "DESIGN.md section 6, C05; notes/C05.md",
 }
